@@ -295,6 +295,7 @@ func parseRun(r *Run, o *Out) parsedRun {
 func (p c20) Eval(c *Case, outs []*Out) []Discrepancy {
 	var meta c20Meta
 	_ = json.Unmarshal(c.Meta, &meta)
+	crossPkgComboWorld = meta.CrossPkgCombo
 	var ds []Discrepancy
 	nf := len(meta.Files)
 	if len(outs) < nf {
@@ -704,8 +705,14 @@ func unmarshalerOnly(keys []string) string {
 			return ""
 		}
 	}
+	if crossPkgComboWorld {
+		return ":unmarshaler-only:crosspackage-combinator-ref"
+	}
 	return ":unmarshaler-only"
 }
+
+// crossPkgComboWorld is set by Eval for the case being judged (Eval is not reentrant).
+var crossPkgComboWorld bool
 
 // clash3World: order.json / customer.json / shipping.json in miniature. File 0's
 // definition "Clash" is generated while the plain name already belongs to a
